@@ -190,7 +190,9 @@ func (t *TabularGraph) getRow(source, collection, id string) *Row {
 	var row *Row
 	if rowChan, err := t.client.GetRowsByID(context.Background(), source, collection, c); err == nil {
 		for i := range rowChan {
-			row = i
+			if i.Data != nil { // a Row without data: not found
+				row = i
+			}
 		}
 	} else {
 		log.Errorf("Row not read: %s", err)
@@ -210,7 +212,9 @@ func (t *TabularGraph) GetVertex(key string, load bool) *gdbi.Vertex {
 			if rowChan, err := t.client.GetRowsByID(context.Background(), v.config.Data.Source, v.config.Data.Collection, c); err == nil {
 				var row *Row
 				for i := range rowChan {
-					row = i
+					if i.Data != nil { // a Row without data: not found
+						row = i
+					}
 				}
 				if row != nil {
 					o := gdbi.Vertex{ID: v.prefix + row.Id, Label: v.config.Label, Data: row.Data.AsMap(), Loaded: true}
@@ -436,7 +440,6 @@ func rowRequestVertexPipeline(ctx context.Context, prefix string,
 		go func() {
 			defer close(out)
 			for r := range rowChan {
-				o := gdbi.Vertex{ID: prefix + r.Id, Label: label, Data: r.Data.AsMap(), Loaded: true}
 				reqSync.Lock()
 				outReq, ok := reqMap[r.RequestID]
 				if !ok {
@@ -444,6 +447,13 @@ func rowRequestVertexPipeline(ctx context.Context, prefix string,
 				}
 				delete(reqMap, r.RequestID)
 				reqSync.Unlock()
+				if r.Data == nil {
+					// row not found: the mux still needs one output for this request;
+					// GetVertexChannel drops everything that is not an ElementLookup
+					out <- nil
+					continue
+				}
+				o := gdbi.Vertex{ID: prefix + r.Id, Label: label, Data: r.Data.AsMap(), Loaded: true}
 				outReq.Vertex = &o
 				out <- outReq
 			}
